@@ -29,11 +29,18 @@ func New(config Configuration, statsdClient *statsd.Client) (*SSOProxy, error) {
 
 	hostRouter := hostmux.NewRouter()
 	for _, upstreamConfig := range config.UpstreamConfigs.upstreamConfigs {
+		// Each upstream authenticates against its own provider slug (which defaults to
+		// the deployment-wide slug when the upstream does not set one).
+		providerUpstreamConfigs := config.UpstreamConfigs
+		if upstreamConfig.ProviderSlug != "" {
+			providerUpstreamConfigs.DefaultConfig.ProviderSlug = upstreamConfig.ProviderSlug
+		}
+
 		provider, err := newProvider(
 			config.ClientConfig,
 			config.ProviderConfig,
 			config.SessionConfig,
-			config.UpstreamConfigs,
+			providerUpstreamConfigs,
 			statsdClient,
 		)
 		if err != nil {
